@@ -122,8 +122,15 @@ def run(ctx):
     sf = seq_faults()
     for pi, plan in enumerate(plans):
         kind = [p for p in plan if p.startswith("F_")][0]
-        for mkname, mk in (("naive", lambda: NaiveForecaster("mean", window_length=3)), ("poly", lambda: PolynomialTrendForecaster(degree=1))):
-            for fname, fault in sf[kind]:
+        from sktime.forecasting.compose import make_reduction
+        from harness.scope import ZeroDimLinear
+        cands = [("naive", lambda: NaiveForecaster("mean", window_length=3), sf[kind]),
+                 ("poly", lambda: PolynomialTrendForecaster(degree=1), sf[kind])]
+        if kind == "F_predict":      # horizon-dependent forecaster: a differing horizon is rejected and leaves no trace
+            cands.append(("reduce_direct", lambda: make_reduction(ZeroDimLinear(), strategy="direct", window_length=3),
+                          [("horizon_differs_from_fit", lambda f, c: f.predict([1, 3]))]))
+        for mkname, mk, faults in cands:
+            for fname, fault in faults:
                 c = VT.context(ctx.seed * 100 + pi % 5)
                 ctx.evaluations += 1
                 sc = {"plan": list(plan), "forecaster": mkname, "fault": fname}
